@@ -3,6 +3,8 @@ package main
 import (
 	"context"
 	"fmt"
+	"os"
+	"path/filepath"
 	"regexp"
 	"sort"
 	"strings"
@@ -441,6 +443,22 @@ func e2eChecks(c *ctx, which string) {
 			jts[id] = jt.String()
 		}
 		p := buildPools(rowBytes, h.TM)
+		// the same files served by the shipped FileSystemDataStore (as DataStore and MetaStore: metadata is
+		// re-read from each file's own footer): whatever produced a file, its rows must be found there too
+		fsDir, err := os.MkdirTemp("", "bse2e")
+		if err != nil {
+			fatal("tempdir: %v", err)
+		}
+		for _, f := range layout {
+			if err := os.WriteFile(filepath.Join(fsDir, f.Ptr+".dat"), f.Bytes, 0o600); err != nil {
+				fatal("write: %v", err)
+			}
+		}
+		fsStore := bs.NewFileSystemDataStore(fsDir)
+		fsEng, err := bs.NewBloomSearchEngine(h.Env.Cfg, fsStore, fsStore)
+		if err != nil {
+			fatal("engine: %v", err)
+		}
 		nq := 24
 		for qi := 0; qi < nq; qi++ {
 			q := genQuery(r, p, false)
@@ -457,6 +475,8 @@ func e2eChecks(c *ctx, which string) {
 			}
 			out := h.Env.Query(q)
 			got := idsOf(out.Rows)
+			fsOut := RunQuery(fsEng, q)
+			gotFS := idsOf(fsOut.Rows)
 			if out.Err != nil {
 				c.r.Add(Finding{Kind: "violation", Check: "e2e-query-error", Detail: "query over healthy stores ended with an error: " + out.Err.Error(), Replay: map[string]any{"ops": h.Ops, "query": q}})
 			}
@@ -510,6 +530,10 @@ func e2eChecks(c *ctx, which string) {
 						prefilterTok(t, q.Prefilter)
 						sat = c.m.Ask(t.String()) == "1"
 					}
+					if sat && gotFS[id] == 0 {
+						c.r.Add(Finding{Kind: "violation", Check: "e2e-false-negative", Detail: fmt.Sprintf("stored row %d matches the query and satisfies the prefilter but is not returned when the same files are served by FileSystemDataStore (err %v)", id, fsOut.Err),
+							Replay: map[string]any{"ops": h.Ops, "row": string(rowOf[id]), "query": q, "tokenizer": h.TM.name, "partition": sr.PID, "hosted": "filesystem"}})
+					}
 					if sat && got[id] == 0 {
 						c.r.Add(Finding{Kind: "violation", Check: "e2e-false-negative", Detail: fmt.Sprintf("stored row %d matches the query and satisfies the prefilter but was not returned", id),
 							Replay: map[string]any{"ops": h.Ops, "row": string(rowOf[id]), "query": q, "tokenizer": h.TM.name, "partition": sr.PID}})
@@ -522,6 +546,9 @@ func e2eChecks(c *ctx, which string) {
 				if which == "C02" {
 					if got[id] > stored[id] {
 						c.r.Add(Finding{Kind: "violation", Check: "e2e-duplicate", Detail: fmt.Sprintf("row %d returned %d times, stored %d times", id, got[id], stored[id]), Replay: map[string]any{"ops": h.Ops, "query": q}})
+					}
+					if gotFS[id] > stored[id] || (gotFS[id] > 0 && !match[id]) {
+						c.r.Add(Finding{Kind: "violation", Check: "e2e-false-positive", Detail: fmt.Sprintf("row %d returned %d times by the filesystem-hosted engine (stored %d, matches=%v)", id, gotFS[id], stored[id], match[id]), Replay: map[string]any{"ops": h.Ops, "query": q, "hosted": "filesystem"}})
 					}
 					if got[id] > 0 && !match[id] {
 						c.r.Add(Finding{Kind: "violation", Check: "e2e-false-positive", Detail: fmt.Sprintf("row %d was returned but does not satisfy the query under the documented semantics", id),
@@ -543,6 +570,7 @@ func e2eChecks(c *ctx, which string) {
 				}
 			}
 		}
+		os.RemoveAll(fsDir)
 		h.Env.Stop()
 	}
 }
